@@ -191,7 +191,7 @@ class Backend(metaclass=ABCMeta):
 
         Clears the output buffer on enter and exit.
         """
-        full_path = os.path.join(self.target_folder_path, relative_path)
+        full_path = os.path.normpath(os.path.join(self.target_folder_path, relative_path))
         self._validate_output_path(full_path)
         if self._record_output_path(full_path):
             self.clear_output_buffer()
